@@ -708,3 +708,313 @@ Proof.
   unfold allowed_ep_h, ep_hl in Hep. rewrite H in Hep. simpl in Hep.
   destruct Hep as [[E|[]]|[E|[]]]; [discriminate|symmetry; exact E].
 Qed.
+
+(* ------------------------------------------------------------------------------------ *)
+(* wire level of the query string: parsing undoes encoding *)
+
+Lemma unescape_escape_byte c rest :
+  query_unescape (escape_byte c ++ rest) = option_map (String c) (query_unescape rest).
+Proof. destruct c as [[] [] [] [] [] [] [] []]; reflexivity. Qed.
+
+Theorem unescape_escape s : query_unescape (query_escape s) = Some s.
+Proof.
+  induction s as [|c s IH]; [reflexivity|]. cbn [query_escape].
+  rewrite unescape_escape_byte, IH. reflexivity.
+Qed.
+
+(* an escaped string contains none of the separators *)
+Lemma ascii_mem_app c a b : ascii_mem c (a ++ b) = ascii_mem c a || ascii_mem c b.
+Proof. induction a as [|x a IH]; simpl; [reflexivity|]. rewrite IH. apply orb_assoc. Qed.
+
+Lemma escape_byte_no_sep c :
+  ascii_mem amp (escape_byte c) = false /\ ascii_mem eqc (escape_byte c) = false /\
+  ascii_mem semi (escape_byte c) = false.
+Proof. destruct c as [[] [] [] [] [] [] [] []]; repeat split; reflexivity. Qed.
+
+Lemma escape_no_sep s :
+  ascii_mem amp (query_escape s) = false /\ ascii_mem eqc (query_escape s) = false /\
+  ascii_mem semi (query_escape s) = false.
+Proof.
+  induction s as [|c s [I1 [I2 I3]]]; [repeat split; reflexivity|].
+  cbn [query_escape]. rewrite !ascii_mem_app, I1, I2, I3.
+  destruct (escape_byte_no_sep c) as [H1 [H2 H3]]. rewrite H1, H2, H3. repeat split; reflexivity.
+Qed.
+
+Lemma split_on_nonnil d s : split_on d s <> [].
+Proof.
+  induction s as [|c s IH]; simpl; [discriminate|].
+  destruct (Ascii.eqb c d); [discriminate|]. destruct (split_on d s); [contradiction|discriminate].
+Qed.
+
+Lemma split_on_no d s : ascii_mem d s = false -> split_on d s = [s].
+Proof.
+  induction s as [|c s IH]; simpl; [reflexivity|]. intros H.
+  apply orb_false_iff in H. destruct H as [H1 H2]. rewrite Ascii.eqb_sym, H1, (IH H2). reflexivity.
+Qed.
+
+(* Split distributes over a separator *)
+Lemma split_on_app d a b : split_on d (a ++ String d b) = (split_on d a ++ split_on d b)%list.
+Proof.
+  induction a as [|c a IH]; simpl.
+  - rewrite Ascii.eqb_refl. reflexivity.
+  - destruct (Ascii.eqb c d); [rewrite IH; reflexivity|].
+    rewrite IH. destruct (split_on d a) as [|x xs] eqn:E; [exfalso; eapply split_on_nonnil; eauto|].
+    reflexivity.
+Qed.
+
+Lemma cut_app d a b : ascii_mem d a = false -> cut d (a ++ String d b) = (a, b).
+Proof.
+  induction a as [|c a IH]; simpl; intros H.
+  - rewrite Ascii.eqb_refl. reflexivity.
+  - apply orb_false_iff in H. destruct H as [H1 H2]. rewrite Ascii.eqb_sym, H1, (IH H2). reflexivity.
+Qed.
+
+Lemma parse_segment_encode_pair p : parse_segment (encode_pair p) = Some p.
+Proof.
+  destruct p as [k v]. unfold encode_pair. cbn [fst snd].
+  destruct (escape_no_sep k) as [_ [Hk2 Hk3]]. destruct (escape_no_sep v) as [_ [_ Hv3]].
+  unfold parse_segment.
+  assert (Hs : ascii_mem semi (query_escape k ++ String eqc (query_escape v)) = false).
+  { rewrite ascii_mem_app, Hk3. simpl. exact Hv3. }
+  rewrite Hs, (cut_app _ _ _ Hk2), !unescape_escape.
+  destruct (query_escape k ++ String eqc (query_escape v))%string eqn:E; [|reflexivity].
+  destruct (query_escape k); discriminate.
+Qed.
+
+Lemma filter_map_app {A B} (f : A -> option B) a b :
+  filter_map f (a ++ b) = (filter_map f a ++ filter_map f b)%list.
+Proof.
+  induction a as [|x a IH]; simpl; [reflexivity|]. destruct (f x); simpl; rewrite IH; reflexivity.
+Qed.
+
+(* ParseQuery distributes over '&' (any two texts, well-formed or not) *)
+Theorem parse_query_amp a b :
+  parse_query (a ++ String amp b) = (parse_query a ++ parse_query b)%list.
+Proof. unfold parse_query. rewrite split_on_app, filter_map_app. reflexivity. Qed.
+
+Lemma encode_pair_no_amp p : ascii_mem amp (encode_pair p) = false.
+Proof.
+  destruct p as [k v]. unfold encode_pair. cbn [fst snd]. rewrite ascii_mem_app.
+  destruct (escape_no_sep k) as [H1 _]. destruct (escape_no_sep v) as [H2 _]. rewrite H1. simpl. exact H2.
+Qed.
+
+(* every list of pairs - any bytes in names and values, repeated names, empty names, empty
+   values - comes back from its encoding, in order *)
+Theorem parse_encode_pairs ps : parse_query (encode_pairs ps) = ps.
+Proof.
+  unfold encode_pairs. induction ps as [|p ps IH]; [reflexivity|].
+  destruct ps as [|p2 ps].
+  - cbn [map join_amp]. unfold parse_query. rewrite (split_on_no _ _ (encode_pair_no_amp p)).
+    cbn [filter_map]. rewrite parse_segment_encode_pair. reflexivity.
+  - change (join_amp (map encode_pair (p :: p2 :: ps)))
+      with (encode_pair p ++ String amp (join_amp (map encode_pair (p2 :: ps))))%string.
+    rewrite parse_query_amp, IH. unfold parse_query. rewrite (split_on_no _ _ (encode_pair_no_amp p)).
+    cbn [filter_map]. rewrite parse_segment_encode_pair. reflexivity.
+Qed.
+
+(* what a backend that parses the RawQuery written by the load balancer finds: the pairs of the
+   url_pattern text, then the pairs of the Query map - no hypothesis on either *)
+Theorem parse_render_raw sraw q :
+  parse_query (render_raw sraw q) = (parse_query sraw ++ flatten q)%list.
+Proof.
+  unfold render_raw. destruct q as [|e q]; [rewrite app_nil_r; reflexivity|].
+  destruct sraw as [|c s].
+  - rewrite parse_encode_pairs. reflexivity.
+  - rewrite parse_query_amp, parse_encode_pairs. reflexivity.
+Qed.
+
+Lemma final_query_eq c r : final_query c r = be_filter (c_be_query c) (sel_query c r).
+Proof. unfold final_query. rewrite new_request_mux. reflexivity. Qed.
+
+Lemma nodup_final_query c r : NoDup (keys (final_query c r)).
+Proof.
+  rewrite final_query_eq. apply nodup_be_filter. apply nodup_select_q; [apply nodup_group|constructor].
+Qed.
+
+(* the wire level refines the pair level: parsing the RawQuery the executor is handed gives
+   the query of the pair-level model, whenever c_static is what the url_pattern text parses to *)
+Theorem wire_refines_pairs c sraw r :
+  parse_query sraw = c_static c ->
+  group (parse_query (outgoing_raw c sraw r)) = o_query (outgoing c r).
+Proof.
+  intros H. unfold outgoing_raw. rewrite parse_render_raw, H, outgoing_eq, final_query_eq. reflexivity.
+Qed.
+
+(* url.Values.Encode sorts the keys, the model renders them in map order: a reader that parses
+   and groups cannot tell - any two renderings of maps that agree under every key do *)
+Theorem key_order_irrelevant sraw (m m' : hmap) k :
+  NoDup (keys m) -> NoDup (keys m') -> (forall x, getl x m = getl x m') ->
+  getl k (group (parse_query (render_raw sraw m))) = getl k (group (parse_query (render_raw sraw m'))).
+Proof.
+  intros H1 H2 H. rewrite !parse_render_raw, !getl_group, !vals_of_app, !vals_of_flatten by assumption.
+  rewrite H. reflexivity.
+Qed.
+
+(* the property at the wire: under every key, a backend that parses its RawQuery reads the
+   values of the url_pattern text followed by the forwarded values *)
+Theorem wire_query_exact c sraw r k :
+  getl k (group (parse_query (outgoing_raw c sraw r))) =
+  (vals_of k (parse_query sraw) ++
+   (if allowed_ep_qb c k && allowed_be_qb c k then client_q r k else []))%list.
+Proof.
+  pose (c' := {| c_adapter := c_adapter c; c_ep_headers := c_ep_headers c; c_ep_query := c_ep_query c;
+                 c_be_headers := c_be_headers c; c_be_query := c_be_query c; c_static := parse_query sraw |}).
+  assert (E : outgoing_raw c sraw r = outgoing_raw c' sraw r) by reflexivity.
+  rewrite E, (wire_refines_pairs c' sraw r eq_refl).
+  exact (sent_q_outgoing c' r k).
+Qed.
+
+(* ------------------------------------------------------------------------------------ *)
+(* GraphQL backends *)
+
+(* the stage is where newStack_names puts it: after the two filters, before the rendering *)
+Lemma gql_stage_position :
+  map (fun n => (n, stage_of n)) (firstn 4 (skipn 2 (rev newStack_names))) =
+  [("NewFilterQueryStringsMiddleware", SFilterQuery); ("NewFilterHeadersMiddleware", SFilterHeaders);
+   ("NewGraphQLMiddleware", SNeutral); ("NewLoadBalancedMiddlewareWithSubscriberAndLogger", SRender)].
+Proof. reflexivity. Qed.
+
+Lemma outgoing_gql_none c r : outgoing_gql GNone c r = outgoing c r.
+Proof. unfold outgoing_gql, outgoing, outgoing_with. rewrite default_exec_eq. reflexivity. Qed.
+
+Lemma getl_gql_headers n m h :
+  getl h (gql_headers n m) = if str_eqb h CT then [json_ct] else if str_eqb h CL then [n] else getl h m.
+Proof. unfold gql_headers. rewrite !getl_set. reflexivity. Qed.
+
+Lemma getl_remove k k' (m : hmap) : getl k (remove k' m) = if str_eqb k k' then [] else getl k m.
+Proof.
+  unfold getl. destruct (str_eqb k k') eqn:E.
+  - apply str_eqb_eq in E. subst. rewrite lookup_remove_eq. reflexivity.
+  - apply str_eqb_neq in E. rewrite lookup_remove_neq by assumption. reflexivity.
+Qed.
+
+Lemma getl_fold_set (opq : hmap) : forall acc k, NoDup (keys opq) ->
+  getl k (fold_left (fun acc kv => set (fst kv) (snd kv) acc) opq acc) =
+  if mem k opq then getl k opq else getl k acc.
+Proof.
+  induction opq as [|[k0 v0] opq IH]; intros acc k Hn; [reflexivity|].
+  inversion Hn; subst. cbn [fold_left fst snd]. rewrite IH by assumption.
+  rewrite getl_set.
+  assert (Hm : mem k ((k0, v0) :: opq) = if str_eqb k k0 then true else mem k opq).
+  { unfold mem. simpl. destruct (str_eqb k k0); reflexivity. }
+  assert (Hg : getl k ((k0, v0) :: opq) = if str_eqb k k0 then v0 else getl k opq).
+  { unfold getl. simpl. destruct (str_eqb k k0); reflexivity. }
+  rewrite Hm, Hg. destruct (str_eqb k k0) eqn:E; [|reflexivity].
+  apply str_eqb_eq in E. subst k0.
+  assert (Hl : mem k opq = false).
+  { unfold mem. replace (lookup k opq) with (@None (list string)); [reflexivity|].
+    symmetry. apply lookup_None_notin. assumption. }
+  rewrite Hl. reflexivity.
+Qed.
+
+Lemma nodup_fold_set (opq : hmap) : forall acc, NoDup (keys acc) ->
+  NoDup (keys (fold_left (fun acc kv => set (fst kv) (snd kv) acc) opq acc)).
+Proof.
+  induction opq as [|kv opq IH]; intros acc H; [exact H|]. apply IH. apply nodup_set. exact H.
+Qed.
+
+Lemma nodup_gql_query opq q : NoDup (keys q) -> NoDup (keys (gql_query opq q)).
+Proof. intros H. apply nodup_fold_set. repeat apply nodup_remove. exact H. Qed.
+
+Lemma getl_gql_query opq q k : NoDup (keys opq) ->
+  getl k (gql_query opq q) =
+  if mem k opq then getl k opq else if str_mem k gql_keys then [] else getl k q.
+Proof.
+  intros H. unfold gql_query. rewrite getl_fold_set by assumption.
+  destruct (mem k opq); [reflexivity|]. rewrite !getl_remove. unfold gql_keys. cbn [str_mem].
+  destruct (str_eqb k "query"), (str_eqb k "operationName"), (str_eqb k "variables"); reflexivity.
+Qed.
+
+(* headers: outside the stage's own two names a GraphQL backend sees what a plain one sees *)
+Lemma sent_h_gql g c r h :
+  sent_h (outgoing_gql g c r) h =
+  match g with
+  | GNone => sent_h (outgoing c r) h
+  | GPost n => if str_eqb h CT then [json_ct] else if str_eqb h CL then [n] else sent_h (outgoing c r) h
+  | GGet _ => if str_eqb h CT then [json_ct] else if str_eqb h CL then ["0"] else sent_h (outgoing c r) h
+  end.
+Proof.
+  destruct g as [|n|opq]; [rewrite outgoing_gql_none; reflexivity| |];
+    unfold sent_h, outgoing_gql; rewrite new_request_mux; cbn [observe run_stage graphql_stage o_headers p_headers];
+    rewrite getl_gql_headers, outgoing_eq; reflexivity.
+Qed.
+
+Theorem gql_headers_sound_model g c r : gql_headers_sound g c r (outgoing_gql g c r).
+Proof.
+  intros h Hne. rewrite sent_h_gql in *. unfold gql_own_hb.
+  destruct g as [|n|opq].
+  - destruct (headers_sound_model c r h Hne) as [H|H]; auto.
+  - destruct (str_eqb h CT); [right; left; reflexivity|]. destruct (str_eqb h CL); [right; left; reflexivity|].
+    destruct (headers_sound_model c r h Hne) as [H|H]; auto.
+  - destruct (str_eqb h CT); [right; left; reflexivity|]. destruct (str_eqb h CL); [right; left; reflexivity|].
+    destruct (headers_sound_model c r h Hne) as [H|H]; auto.
+Qed.
+
+Theorem gql_headers_complete_model g c r : gql_headers_complete g c r (outgoing_gql g c r).
+Proof.
+  intros h H1 H2 H3 H4 H5. rewrite sent_h_gql. unfold gql_own_hb in H4.
+  destruct g as [|n|opq]; try (apply orb_false_iff in H4; destruct H4 as [E1 E2]; rewrite E1, E2);
+    apply headers_complete_model; assumption.
+Qed.
+
+Theorem gql_own_headers_model g c r : gql_own_headers g (outgoing_gql g c r).
+Proof.
+  destruct g as [|n|opq]; [exact I| |]; unfold gql_own_headers; rewrite !sent_h_gql; split; reflexivity.
+Qed.
+
+Theorem gql_query_exact_model g c r :
+  NoDup (keys (gql_opq g)) -> (forall k, mem k (gql_opq g) = true -> str_mem k gql_keys = true) ->
+  gql_query_exact g c r (outgoing_gql g c r).
+Proof.
+  intros Hn Hk k. unfold gql_own_qb. destruct g as [|n|opq].
+  - rewrite outgoing_gql_none. apply sent_q_outgoing.
+  - assert (E : o_query (outgoing_gql (GPost n) c r) = o_query (outgoing c r)).
+    { unfold outgoing_gql. rewrite new_request_mux, outgoing_eq. reflexivity. }
+    unfold sent_q. rewrite E. apply sent_q_outgoing.
+  - cbn [gql_opq] in *. unfold sent_q, outgoing_gql. rewrite new_request_mux.
+    cbn [observe run_stage graphql_stage o_query p_url p_query].
+    rewrite getl_group, vals_of_app. unfold static_q. f_equal.
+    fold (sel_query c r).
+    rewrite vals_of_flatten.
+    2:{ apply nodup_gql_query, nodup_be_filter, nodup_select_q; [apply nodup_group|constructor]. }
+    rewrite getl_gql_query by assumption.
+    destruct (mem k opq) eqn:Em.
+    + rewrite (Hk k Em). reflexivity.
+    + destruct (str_mem k gql_keys); [symmetry; apply mem_false_getl; exact Em|].
+      pose proof (sent_q_outgoing c r k) as Hs. unfold sent_q in Hs. rewrite outgoing_eq in Hs.
+      cbn [o_query] in Hs. rewrite getl_group, vals_of_app in Hs.
+      rewrite vals_of_flatten in Hs.
+      2:{ apply nodup_be_filter, nodup_select_q; [apply nodup_group|constructor]. }
+      apply app_inv_head in Hs. exact Hs.
+Qed.
+
+(* the model passes the boolean oracle used on the observations of GraphQL backends *)
+Theorem gql_model_meets_oracle g c r :
+  NoDup (keys (gql_opq g)) -> (forall k, mem k (gql_opq g) = true -> str_mem k gql_keys = true) ->
+  spec_gql_b g c r (outgoing_gql g c r) = true.
+Proof.
+  intros Hn Hk. unfold spec_gql_b. repeat (apply andb_true_iff; split).
+  - apply forallb_forall. intros [h vs] _. cbn [fst].
+    destruct (is_nil (sent_h (outgoing_gql g c r) h)) eqn:En; [reflexivity|]. apply is_nil_false in En.
+    destruct (gql_headers_sound_model g c r h En) as [H|[H|[H1 [H2 H3]]]].
+    + apply own_b_iff in H. rewrite H. reflexivity.
+    + rewrite H. rewrite orb_true_r. reflexivity.
+    + apply allowed_ep_hb_iff in H1. apply allowed_be_hb_iff in H2. rewrite H1, H2, H3, sl_eqb_refl. apply orb_true_r.
+  - apply forallb_forall. intros p Hin. set (h := canon (fst p)).
+    destruct (overwritten_b h) eqn:Eo; [reflexivity|]. destruct (gql_own_hb g h) eqn:Eg; [reflexivity|].
+    destruct (allowed_ep_hb c h && allowed_be_hb c h) eqn:Ea; [|reflexivity]. cbn [orb negb].
+    apply andb_true_iff in Ea. destruct Ea as [E1 E2].
+    apply allowed_ep_hb_iff in E1. apply allowed_be_hb_iff in E2.
+    assert (Hc : canon h = h) by (unfold h; apply canon_idem).
+    assert (Hpres : client_h r h <> []).
+    { unfold client_h. intros En.
+      assert (Hf : In p (filter (fun q => str_eqb (canon (fst q)) (canon h)) (r_lines r))).
+      { apply filter_In. split; [exact Hin|]. rewrite Hc. apply str_eqb_refl. }
+      destruct (filter (fun q => str_eqb (canon (fst q)) (canon h)) (r_lines r)); [contradiction|discriminate]. }
+    pose proof (gql_headers_complete_model g c r h E1 E2) as H. rewrite Hc in H.
+    rewrite H; [apply sl_eqb_refl| |exact Eg|exact Hpres].
+    intros Ho. apply overwritten_b_iff in Ho. congruence.
+  - pose proof (gql_own_headers_model g c r) as H. destruct g as [|n|opq]; [reflexivity| |];
+      destruct H as [H1 H2]; rewrite H1, H2, !sl_eqb_refl; reflexivity.
+  - apply forallb_forall. intros k _. rewrite (gql_query_exact_model g c r Hn Hk k). apply sl_eqb_refl.
+Qed.
